@@ -150,6 +150,32 @@ func main() {
 		fs = append(fs, func() Int { return k * k })
 	}
 	o("closures", itoa(int64(fs[0]()+fs[1]()+fs[2]())))
+	// header variables of nested loops (one variable per loop instance), captured by closures and by pointers
+	var gs []func() Int
+	var ps []*Int
+	for a := Int(0); a < 3; a++ {
+		for b := a * 10; b < a*10+2; b++ {
+			gs = append(gs, func() Int { return b })
+			ps = append(ps, &b)
+		}
+	}
+	nested := ""
+	for k, g := range gs {
+		nested += itoa(int64(g())) + "," + itoa(int64(*ps[k])) + ";"
+	}
+	var hs []func() Int
+	for _, row := range [][]Int{{1, 2}, {3}} {
+		for j, cell := range row {
+			hs = append(hs, func() Int { return cell*100 + Int(j) })
+		}
+		for j := range row {
+			hs = append(hs, func() Int { return Int(j) + 50 })
+		}
+	}
+	for _, h := range hs {
+		nested += itoa(int64(h())) + ";"
+	}
+	o("closures-nested-loops", nested)
 }
 `
 
